@@ -141,6 +141,11 @@ def run(ctx):
     unitrules.apply(ctx, "C09-R2", scope, kinds={"call", "return", "sink"},
                     what="contract sites in the region conversion chain",
                     floor=12)
+    # ---------------------------------------------------------------- R5
+    ctx.rule("C09-R5", "membership queries flatten every stored level "
+             "(1..maxdepth-1) into the deepest one")
+    from .c08 import demotion_levels
+    demotion_levels(ctx, ci, "C09-R5")
     # ---------------------------------------------------------------- R3
     ctx.rule("C09-R3", "non-finite positions: mask from isfinite of the "
              "converted coordinates; result[mask] = False is the last "
